@@ -1440,6 +1440,40 @@ fn subnormal_probe<T: Sc>(rep: &mut Report) {
         }
         rep.count("subnormal_probes", 1);
     }
+    // the whole weighted basis matrix AND the observations in the subnormal range, threshold zero: the
+    // singular values are subnormal numbers (their reciprocals are not representable), the optimum is (3, 2)
+    let e = if T::NAME == "f64" { -1040 } else { -135 };
+    let tiny = if T::NAME == "f64" { f64::from_bits(1u64 << (e + 1074)) } else { (f32::from_bits(1u32 << (e + 149))) as f64 };
+    let n = 6usize;
+    let entry = TableEntry {
+        a: vec![0],
+        phi: DMatrix::from_fn(n, 2, |i, j| T::of64(tiny * if j == 0 { (i + 1) as f64 } else { 1.0 })),
+        dphi: vec![DMatrix::from_fn(n, 2, |i, j| T::of64(tiny * if j == 0 { i as f64 } else { 0.0 }))],
+    };
+    let table = Arc::new(Table { n, m: 2, p: 1, entries: vec![entry] });
+    for (mrhs, par) in [(false, false), (true, true)] {
+        let y = DMatrix::from_fn(n, if mrhs { 2 } else { 1 }, |i, q| T::of64(tiny * (3.0 * (i + 1) as f64 + 2.0 + q as f64 * (i + 1) as f64)));
+        let flav = format!("all-subnormal probe {} mrhs={} par={} scale=2^{}", T::NAME, mrhs, par, e);
+        let det = |what: &str, dv: f64| json!({"flavour": flav, "what": what, "dev": dv});
+        let built = catch_unwind(AssertUnwindSafe(|| build_problem(TableModel::new(table.clone(), &[0]), mrhs, par, &y, None, Some(T::zero()))));
+        let Ok(Ok(prob)) = built else {
+            rep.violation("C08", det("building the problem panicked or failed", 0.0));
+            continue;
+        };
+        match prob.coeffs() {
+            Some(c) => {
+                let mut worst = 0.0f64;
+                for q in 0..c.ncols() {
+                    worst = nmax(worst, (c[(0, q)].to64() - (3.0 + q as f64)).abs());
+                    worst = nmax(worst, (c[(1, q)].to64() - 2.0).abs());
+                }
+                let tol = if T::NAME == "f64" { 1e-6 } else { 2e-2 };
+                rep.check("C01", worst <= tol, worst, || det("coefficients are not the optimum (3, 2): singular values above the (zero) threshold are inverted, also when they are subnormal", worst));
+            }
+            None => rep.violation("C01", det("coefficients absent although every value is a finite number", 0.0)),
+        }
+        rep.count("all_subnormal_probes", 1);
+    }
 }
 
 /// C10: a long history.  K parameter updates (with residual queries only) between two Jacobian queries,
